@@ -71,15 +71,33 @@ theorem permExhaust_is_S4 :
     RP.Gen.permExhaust.length = 24 ∧ RP.Gen.permExhaust.Nodup ∧
     ∀ p ∈ RP.Gen.permExhaust, p.length = 4 ∧ ∀ s, s < 4 → s ∈ p := by decide +kernel
 
+theorem coeff_two (p : List Nat) (k : Nat) : coeff p 2 k = (p.drop 12).getD k 0 := by
+  unfold coeff
+  simp only [List.getD_eq_getElem?_getD, List.getElem?_drop]
+
+/-- the `x²` row of `Σ_π Π_cycles (1+x^ℓ+y^ℓ)^13` (board sizes 0..5), evaluated by the kernel -/
+theorem fixedTotal_row_std :
+    (fixedTotal 13).drop 12 = [4056, 121992, 2250456, 30883008, 335041200, 2955750096] := by decide +kernel
+
+/-- the `x²` row for 9 ranks -/
+theorem fixedTotal_row_short :
+    (fixedTotal 9).drop 12 = [1944, 39096, 487512, 4480704, 32180544, 185369472] := by decide +kernel
+
 /-- **C06_burnside_arith** (standard deck, 13 ranks): the published class counts
-169 / 1,286,792 / 13,960,050 / 123,156,254 are exactly `(1/24)·Σ_π [x²y^k] Π_cycles (1+x^ℓ+y^ℓ)^13`;
-the sums are divisible by 24. -/
+169 / 1,286,792 / 13,960,050 / 123,156,254 are exactly `(1/24)·Σ_π [x²y^k] Π_cycles (1+x^ℓ+y^ℓ)^13`
+for the board sizes `k` of the four streets; the sums are divisible by 24. -/
 theorem C06_burnside_arith_std :
-    fixedSums 13 = RP.Gen.n_isomorphisms_Std.map (· * 24) := by decide +kernel
+    fixedSums 13 = RP.Gen.n_isomorphisms_Std.map (· * 24) := by
+  unfold fixedSums
+  simp only [coeff_two, fixedTotal_row_std]
+  decide
 
 /-- **C06_burnside_arith** (short deck, 9 ranks): 81 / 186,696 / 1,340,856 / 7,723,728 -/
 theorem C06_burnside_arith_short :
-    fixedSums 9 = RP.Gen.n_isomorphisms_Short.map (· * 24) := by decide +kernel
+    fixedSums 9 = RP.Gen.n_isomorphisms_Short.map (· * 24) := by
+  unfold fixedSums
+  simp only [coeff_two, fixedTotal_row_short]
+  decide
 
 /-- the values named in the property statement -/
 theorem C06_burnside_values :
